@@ -172,6 +172,12 @@ def do_link(src, trg):
         return True
     except FileExistsError:
         pass
+    except FileNotFoundError:
+        # the parent directory of the target is missing; create it the way copyfile would
+        if not ensure_dirs(os.path.dirname(trg.location), mode=0o750, minimal=True):
+            raise
+        os.link(src.location, trg.location)
+        return True
     except OSError as e:
         if e.errno == errno.EXDEV:
             # hardlink is impossible, force copyfile
